@@ -160,7 +160,8 @@ def kp_cases(tier):
     thorough = tier == 'thorough'
     init0 = dict(argv=['host', 'x'], argv_rebound=False, path_rebound=False, profile='undecided')
     setups = [(None, []), ([], []), (['enable'], []), (['enable', 'decorate'], []), (['decorate'], ['--line-profile']),
-              (['decorate'], []), (['disable'], []), (['decorate', 'enable'], ['--line_profile', 'z'])]
+              (['decorate'], []), (['disable'], []), (['decorate', 'enable'], ['--line_profile', 'z']),
+              (None, ['--line-profile']), ([], ['q', '--line_profile'])]      # the switch is only among the PROGRAM's arguments
     outcomes = ['ret', 'exc', 'exit'] + (['kbd', 'excin'] if thorough else [])
     cases = []
 
